@@ -72,6 +72,131 @@ Example C09_prepeptide_nonvacuous :
   prepeptide_locs g 1 2 = Ok [[mkPart 0 3 1]; [mkPart 3 7 1; mkPart 10 15 1]; [mkPart 15 21 1]].
 Proof. split; [vm_compute; reflexivity|]. split; [vm_compute; reflexivity|]. vm_compute. reflexivity. Qed.
 
+(* ---------- a prepeptide whose location holds more codons than its sections (the stop codon) ----------
+   Vocabulary.  The RiPP modules build Prepeptide(cds.location, ..., core, leader=..., tail=...) with
+   leader + core + tail = the gene's translation, while the location as a rule ends with the stop codon.
+   [slack] = len(location) // 3 - len(leader) - len(core) - len(tail) (1 in that case; 0 when the sections fill the
+   location: the case of C09_prepeptide_partition).  [prepeptide_locs_s g ll tl slack] is Prepeptide.to_biopython AS
+   REPAIRED (boundaries counted from the start: core = [ll, ll + len(core)) if there is a tail, the last section runs
+   to the end of the location); [prepeptide_locs_old_s] the code BEFORE the repair (tail counted back from the end,
+   len(core) never looked at); [prepeptide_locs g ll tl] is by definition [prepeptide_locs_s g ll tl 0].
+   Model.v: [strict_ranges total ll tl slack] = the residue ranges the property demands, leader [0,ll) if ll > 0,
+   core [ll, total-tl-slack), tail [total-tl-slack, total-slack) if tl > 0; [extended_ranges] = the same with the LAST
+   section running on to [total] (it also holds the 3*slack trailing bases); [spec_prepeptide_s] (strict) /
+   [spec_prepeptide_relaxed_s] (strict or extended) are the decidable forms evaluated on every implementation output.
+   Proofs.v: [sections_ok g ranges locs] - one location per range, each with everything C09_subloc states for its
+   range ([subloc_ok]: inside the gene, 3 bases per residue, reads exactly that stretch of the gene's reading order,
+   extracts / translates to that stretch for every sequence and codon table). *)
+
+(* (a) sections that fill the location: counting from the start (repaired) and counting back from the end (before)
+   are the same function, so C09_prepeptide_partition speaks about both *)
+Theorem C09_prepeptide_slack_zero : forall g leader_len tail_len,
+  0 <= tail_len ->
+  prepeptide_locs_s g leader_len tail_len 0 = prepeptide_locs_old_s g leader_len tail_len 0 /\
+  prepeptide_locs g leader_len tail_len = prepeptide_locs_old_s g leader_len tail_len 0.
+Proof. exact prepeptide_slack_zero. Qed.
+Print Assumptions C09_prepeptide_slack_zero.
+
+(* ... and with slack 0 every section satisfies the strict specification *)
+Theorem C09_prepeptide_slack_zero_strict : forall g leader_len tail_len,
+  guard_gene g = true -> 0 <= leader_len -> 0 <= tail_len -> leader_len + tail_len < llen g / 3 ->
+  exists locs, prepeptide_locs_s g leader_len tail_len 0 = Ok locs /\
+    sections_ok g (strict_ranges (llen g / 3) leader_len tail_len 0) locs /\
+    spec_prepeptide_s g leader_len tail_len 0 (Ok locs) = true.
+Proof. exact prepeptide_s_zero_strict. Qed.
+Print Assumptions C09_prepeptide_slack_zero_strict.
+
+(* (b) the repaired function, any slack >= 0, a core of at least one residue, gene not spanning the origin: the
+   sections exist and are exactly the sub-locations of the extended ranges - every section starts at its first
+   residue, every section but the last has three bases per residue and reads exactly its stretch of the gene, the
+   last one runs on to the end of the location's codons; the relaxed specification holds *)
+Theorem C09_prepeptide_slack : forall g leader_len tail_len slack,
+  guard_gene g = true -> 0 <= leader_len -> 0 <= tail_len -> 0 <= slack ->
+  leader_len + tail_len + slack < llen g / 3 ->
+  exists locs, prepeptide_locs_s g leader_len tail_len slack = Ok locs /\
+    sections_ok g (extended_ranges (llen g / 3) leader_len tail_len slack) locs /\
+    spec_prepeptide_relaxed_s g leader_len tail_len slack (Ok locs) = true.
+Proof. exact prepeptide_s_guard. Qed.
+Print Assumptions C09_prepeptide_slack.
+
+(* the ranges of that statement spelt out *)
+Theorem C09_prepeptide_slack_ranges : forall total leader_len tail_len slack,
+  (0 < tail_len ->
+   extended_ranges total leader_len tail_len slack
+   = (if 0 <? leader_len then [(0, leader_len)] else [])
+     ++ [(leader_len, total - tail_len - slack); (total - tail_len - slack, total)] /\
+   strict_ranges total leader_len tail_len slack
+   = (if 0 <? leader_len then [(0, leader_len)] else [])
+     ++ [(leader_len, total - tail_len - slack); (total - tail_len - slack, total - slack)]) /\
+  extended_ranges total leader_len 0 slack
+  = (if 0 <? leader_len then [(0, leader_len)] else []) ++ [(leader_len, total)] /\
+  strict_ranges total leader_len 0 slack
+  = (if 0 <? leader_len then [(0, leader_len)] else []) ++ [(leader_len, total - slack)].
+Proof. exact prepeptide_slack_ranges. Qed.
+Print Assumptions C09_prepeptide_slack_ranges.
+
+(* with a tail: leader and core are EXACT - the core has three bases per residue of the core and ends where the
+   tail's first codon starts (what the repair is about) -, the tail starts at its first residue and holds its
+   3*tail_len bases plus the 3*slack trailing ones *)
+Theorem C09_prepeptide_slack_tail : forall g leader_len tail_len slack,
+  guard_gene g = true -> 0 <= leader_len -> 0 < tail_len -> 0 <= slack ->
+  leader_len + tail_len + slack < llen g / 3 ->
+  exists lead c t, prepeptide_locs_s g leader_len tail_len slack = Ok (lead ++ [c; t]) /\
+    sections_ok g (if 0 <? leader_len then [(0, leader_len)] else []) lead /\
+    subloc_ok g leader_len (llen g / 3 - tail_len - slack) c /\
+    llen c = 3 * (llen g / 3 - leader_len - tail_len - slack) /\
+    subloc_ok g (llen g / 3 - tail_len - slack) (llen g / 3) t /\
+    llen t = 3 * tail_len + 3 * slack.
+Proof. exact prepeptide_s_tail. Qed.
+Print Assumptions C09_prepeptide_slack_tail.
+
+(* non-vacuity: LEAD + CORE + TL on [0:33](+) (11 codons, slack 1), and a reverse-strand gene of two exons with
+   the core | tail boundary on the exon border, slack 1, no leader *)
+Example C09_prepeptide_slack_nonvacuous :
+  let g := [mkPart 0 33 1] in
+  let h := [mkPart 40 52 (-1); mkPart 20 32 (-1)] in
+  guard_gene g = true /\ 4 + 2 + 1 < llen g / 3 /\
+  prepeptide_locs_s g 4 2 1 = Ok [[mkPart 0 12 1]; [mkPart 12 24 1]; [mkPart 24 33 1]] /\
+  guard_gene h = true /\ 0 + 3 + 1 < llen h / 3 /\
+  prepeptide_locs_s h 0 3 1 = Ok [[mkPart 40 52 (-1)]; [mkPart 20 32 (-1)]].
+Proof. repeat split; vm_compute; reflexivity. Qed.
+
+(* (c) FALSE for the code BEFORE the repair (finding prepeptide_tail_boundary_shifted_by_stop_codon, fixed): with
+   slack 1 and a tail not even the relaxed specification holds - LEAD + CORE + TL on [0:33](+) gave the core [12:27],
+   15 bases for 4 residues (it swallowed the tail's first codon), and the tail [27:33], starting one residue late *)
+Theorem C09_prepeptide_old_tail_refuted :
+  exists g ll tl a c t, guard_gene g = true /\ 0 <= ll /\ 0 < tl /\ ll + tl + 1 < llen g / 3 /\
+    prepeptide_locs_old_s g ll tl 1 = Ok [a; c; t] /\
+    llen c = 3 * (llen g / 3 - ll - tl - 1) + 3 /\
+    idx t <> sublist (3 * (llen g / 3 - tl - 1)) (3 * (llen g / 3)) (idx g) /\
+    spec_prepeptide_relaxed_s g ll tl 1 (Ok [a; c; t]) = false.
+Proof. exact prepeptide_old_tail_refuted. Qed.
+Print Assumptions C09_prepeptide_old_tail_refuted.
+
+(* STILL FALSE for the repaired code (finding prepeptide_last_section_holds_stop_codon, what is left): the STRICT
+   specification with slack 1 - the tail [24:33] of the same prepeptide is its two residues plus the stop codon
+   (leader and core are exact, the relaxed specification holds) *)
+Theorem C09_prepeptide_last_section_refuted :
+  exists g ll tl a c t, guard_gene g = true /\ 0 <= ll /\ 0 < tl /\ ll + tl + 1 < llen g / 3 /\
+    prepeptide_locs_s g ll tl 1 = Ok [a; c; t] /\
+    llen c = 3 * (llen g / 3 - ll - tl - 1) /\
+    llen t = 3 * tl + 3 /\
+    spec_prepeptide_s g ll tl 1 (Ok [a; c; t]) = false /\
+    spec_prepeptide_relaxed_s g ll tl 1 (Ok [a; c; t]) = true.
+Proof. exact prepeptide_last_section_refuted. Qed.
+Print Assumptions C09_prepeptide_last_section_refuted.
+
+(* ... and without a tail the core is the last section: LEAD + CORETL on [0:33](+) has the core [12:33], 21 bases
+   for 6 residues, before and after the repair *)
+Theorem C09_prepeptide_core_stop_refuted :
+  exists g ll a c, guard_gene g = true /\ 0 <= ll /\ ll + 0 + 1 < llen g / 3 /\
+    prepeptide_locs_s g ll 0 1 = Ok [a; c] /\ prepeptide_locs_old_s g ll 0 1 = Ok [a; c] /\
+    llen c = 3 * (llen g / 3 - ll - 0 - 1) + 3 /\
+    spec_prepeptide_s g ll 0 1 (Ok [a; c]) = false /\
+    spec_prepeptide_relaxed_s g ll 0 1 (Ok [a; c]) = true.
+Proof. exact prepeptide_core_stop_refuted. Qed.
+Print Assumptions C09_prepeptide_core_stop_refuted.
+
 (* the marker of the three bases at offset i (any offset, not only a codon's) of a single-exon gene
    (either strand) lies inside the gene, has three bases and extracts, for every sequence, to bases
    i..i+3 of the gene's extraction *)
